@@ -409,9 +409,15 @@ func offer(w *tj.Writer, r *rand.Rand, idx int) {
 			peerBlocks = peerBlocks[:corruptAt+1]
 			last := peerBlocks[corruptAt]
 			hdr := *last.Header
-			sr := append([]byte{}, hdr.StateRoot...)
-			sr[0] ^= 0xff
-			hdr.StateRoot = sr
+			if r.Intn(3) == 0 && hdr.Height >= 2 {
+				// a block that links to its parent but claims the parent's height (statically fine, signed by the
+				// slot's generator): only verifyBlock's height rule stands between it and the height index
+				hdr.Height--
+			} else {
+				sr := append([]byte{}, hdr.StateRoot...)
+				sr[0] ^= 0xff
+				hdr.StateRoot = sr
+			}
 			gen := 0
 			for id := 1; id <= cfg.NVal; id++ {
 				if bytes.Equal(node.Validator(id).Address, hdr.GeneratorAddress) {
